@@ -66,6 +66,7 @@ type Violation struct {
 }
 
 type Result struct {
+	Race       string         `json:"race_report,omitempty"`
 	ID         int            `json:"id"`
 	Start      *int           `json:"start,omitempty"`
 	Prop       string         `json:"prop"`
@@ -97,22 +98,22 @@ type Result struct {
 }
 
 type ScenarioInfo struct {
-	Prop     string `json:"prop"`
-	Desc     string `json:"desc"`
-	Quick    int    `json:"quick"`
-	Thorough int    `json:"thorough"`
-	Race     bool   `json:"race"`
-	Crash    bool   `json:"crash_is_violation"`
-	Real     string `json:"real"`
-	Model    string `json:"model"`
-	Rule     string `json:"rule"`
+	Prop     string   `json:"prop"`
+	Desc     string   `json:"desc"`
+	Quick    int      `json:"quick"`
+	Thorough int      `json:"thorough"`
+	Race     bool     `json:"race"`
+	Crash    bool     `json:"crash_is_violation"`
+	Real     string   `json:"real"`
+	Model    string   `json:"model"`
+	Rule     string   `json:"rule"`
 	Assume   []string `json:"assume"`
 }
 
 type Finding struct {
 	Property string `json:"property"`
 	Class    string `json:"class"`
-	Sig      string `json:"sig"` // regexp matched against the violation signature
+	Sig      string `json:"sig"`    // regexp matched against the violation signature
 	Status   string `json:"status"` // "open" | "fixed"
 	Commit   string `json:"commit,omitempty"`
 	What     string `json:"what"`
@@ -164,9 +165,9 @@ func goFilter(p string) bool {
 }
 
 type build struct {
-	bin     string
-	overlay string
-	treeHash string
+	bin        string
+	overlay    string
+	treeHash   string
 	instrStats json.RawMessage
 }
 
@@ -278,8 +279,22 @@ func ensureBuilt(race bool) *build {
 
 func exists(p string) bool { _, err := os.Stat(p); return err == nil }
 
+var raceLogSeq int
+
 func simEnv(extra ...string) []string {
 	env := append(os.Environ(), "GODEBUG=asyncpreemptoff=1")
+	has := false
+	for _, e := range extra {
+		if strings.HasPrefix(e, "GORACE=") {
+			has = true
+		}
+	}
+	if !has {
+		// race builds: every process logs detector reports to its own file, which the
+		// process itself reads back after each run (worlds.runOne) to attribute them
+		raceLogSeq++
+		env = append(env, fmt.Sprintf("GORACE=halt_on_error=0 exitcode=0 suppress_equal_stacks=0 suppress_equal_addresses=0 log_path=%s", filepath.Join(os.TempDir(), fmt.Sprintf("vrace-%d-%d", os.Getpid(), raceLogSeq))))
+	}
 	return append(env, extra...)
 }
 
@@ -348,6 +363,7 @@ func (s *server) eval(prop, tier string, seed uint64, index int, t *Tapes) (*Res
 			if err := json.Unmarshal([]byte(l[7:]), &r); err != nil {
 				return nil, err
 			}
+			raceToViolation(&r)
 			return &r, nil
 		}
 	}
@@ -817,6 +833,7 @@ func fanOut(b *build, prop, tier string, seed uint64, n, procs, budgetS int, kee
 		}(k)
 	}
 	werrs := map[int]wres{}
+	attributedRaces := false
 	for k := 0; k < procs; k++ {
 		w := <-ch
 		if w.err != nil {
@@ -849,10 +866,16 @@ func fanOut(b *build, prop, tier string, seed uint64, n, procs, budgetS int, kee
 				harnessErrs = append(harnessErrs, fmt.Sprintf("run index %d: %s", r.Index, r.Harness))
 			}
 			rr := r
+			if rr.Race != "" {
+				attributedRaces = true
+				raceToViolation(&rr)
+			}
 			results = append(results, &rr)
 		}
 		f.Close()
-		if w, bad := werrs[k]; bad {
+		if w, bad := werrs[k]; bad && info.Race && (lastStart < 0 || finished[lastStart]) && strings.Contains(w.stderr, "race detected during execution of test") {
+			// race build: the testing package exits 1 after a detector report; the reports are read below
+		} else if bad {
 			if lastStart >= 0 && !finished[lastStart] {
 				// the process died inside run lastStart
 				if info.Crash && gatePanic(w.stderr) {
@@ -866,7 +889,7 @@ func fanOut(b *build, prop, tier string, seed uint64, n, procs, budgetS int, kee
 			}
 		}
 		// race reports
-		if matches, _ := filepath.Glob(filepath.Join(tmp, fmt.Sprintf("race%d.*", k))); len(matches) > 0 {
+		if matches, _ := filepath.Glob(filepath.Join(tmp, fmt.Sprintf("race%d.*", k))); len(matches) > 0 && !attributedRaces {
 			for _, m := range matches {
 				rb, _ := os.ReadFile(m)
 				for _, rep := range parseRaceReports(string(rb)) {
@@ -945,6 +968,20 @@ type raceReport struct {
 	gateOnly bool
 }
 
+// raceToViolation turns the race-detector output a run produced into that run's violation
+// (first report whose two access stacks are in gate code).
+func raceToViolation(r *Result) {
+	if r.Race == "" || r.Viol != nil {
+		return
+	}
+	for _, rep := range parseRaceReports(r.Race) {
+		if rep.gateOnly {
+			r.Viol = &Violation{Class: "data-race", Sig: rep.sig, Detail: rep.text}
+			return
+		}
+	}
+}
+
 func parseRaceReports(s string) []raceReport {
 	var out []raceReport
 	parts := strings.Split(s, "==================")
@@ -964,7 +1001,8 @@ func parseRaceReports(s string) []raceReport {
 			for _, l := range strings.Split(blk, "\n") {
 				l = strings.TrimSpace(l)
 				if strings.HasPrefix(l, "go.minekube.com/gate/") || strings.HasPrefix(l, "runtime.") || strings.Contains(l, "(") && !strings.HasPrefix(l, "/") && !strings.HasPrefix(l, "WARNING") && !strings.HasPrefix(l, "Read") && !strings.HasPrefix(l, "Write") && !strings.HasPrefix(l, "Previous") {
-					if strings.HasPrefix(l, "runtime.") || strings.HasPrefix(l, "sync.") || strings.HasPrefix(l, "sync/atomic.") || strings.HasPrefix(l, "internal/") {
+					if strings.HasPrefix(l, "runtime.") || strings.HasPrefix(l, "sync.") || strings.HasPrefix(l, "sync/atomic.") || strings.HasPrefix(l, "internal/") ||
+						strings.HasPrefix(l, "reflect.") || strings.HasPrefix(l, "go.minekube.com/gate/pkg/zzverif/simrt.") {
 						continue
 					}
 					top = l
@@ -974,10 +1012,11 @@ func parseRaceReports(s string) []raceReport {
 			if top == "" || !strings.HasPrefix(top, "go.minekube.com/gate/") || strings.Contains(top, "/zzverif/") {
 				ok = false
 			}
-			if i := strings.IndexByte(top, '('); i > 0 {
-				top = top[:i]
+			top = strings.TrimSuffix(top, "()")
+			if i := strings.LastIndexByte(top, '/'); i > 0 {
+				top = top[i+1:]
 			}
-			tops = append(tops, strings.TrimPrefix(top, "go.minekube.com/gate/"))
+			tops = append(tops, top)
 		}
 		if len(tops) < 2 {
 			ok = false
@@ -989,19 +1028,19 @@ func parseRaceReports(s string) []raceReport {
 }
 
 type replayFile struct {
-	Property string     `json:"property"`
-	Tier     string     `json:"tier"`
-	Seed     uint64     `json:"seed"`
-	Index    int        `json:"index"`
-	Tree     string     `json:"repo_tree_hash"`
-	Expect   *Violation `json:"expect"`
-	Tapes    *Tapes     `json:"tapes,omitempty"`
-	Trace    []string   `json:"trace,omitempty"`
-	Sample   any        `json:"sample,omitempty"`
-	OpKinds  string     `json:"ops,omitempty"`
-	Faults   map[string]int `json:"faults_fired,omitempty"`
-	ShrinkEvals int     `json:"shrink_evaluations"`
-	How      string     `json:"how_to_replay"`
+	Property    string         `json:"property"`
+	Tier        string         `json:"tier"`
+	Seed        uint64         `json:"seed"`
+	Index       int            `json:"index"`
+	Tree        string         `json:"repo_tree_hash"`
+	Expect      *Violation     `json:"expect"`
+	Tapes       *Tapes         `json:"tapes,omitempty"`
+	Trace       []string       `json:"trace,omitempty"`
+	Sample      any            `json:"sample,omitempty"`
+	OpKinds     string         `json:"ops,omitempty"`
+	Faults      map[string]int `json:"faults_fired,omitempty"`
+	ShrinkEvals int            `json:"shrink_evaluations"`
+	How         string         `json:"how_to_replay"`
 }
 
 func writeReplay(prop, tier string, seed uint64, r *Result, t *Tapes, b *build, evals int) string {
@@ -1067,7 +1106,7 @@ func determinismSelfTest(b *build, prop, tier string, seed uint64) int {
 		tmp.Close()
 		cmd := exec.Command(b.bin, "-test.run", "^TestSim$", "-test.timeout", "0", "-test.cpu", cpu)
 		cmd.Env = simEnv("VSIM_MODE=batch", "VSIM_PROP="+prop, "VSIM_TIER="+tier, "VSIM_SEED="+strconv.FormatUint(seed, 10),
-			"VSIM_FROM=0", "VSIM_TO="+strconv.Itoa(n), "VSIM_OUT="+tmp.Name(), "VSIM_KEEP_GOING=1", "GORACE=halt_on_error=0 exitcode=0 log_path=/dev/null")
+			"VSIM_FROM=0", "VSIM_TO="+strconv.Itoa(n), "VSIM_OUT="+tmp.Name(), "VSIM_KEEP_GOING=1")
 		out, err := cmd.CombinedOutput()
 		if err != nil {
 			fmt.Fprintf(os.Stderr, "selftest worker failed: %v\n%s\n", err, tail(string(out), 3000))
@@ -1185,30 +1224,30 @@ func writeEvidence(prop, tier string, seed uint64, info *ScenarioInfo, b *build,
 		"wall_s":      wall,
 		"violations":  violations,
 		"coverage": map[string]any{
-			"evaluations":           len(results),
-			"distinct_nontrivial":   len(distinct),
-			"rule":                  rule,
-			"samples":               samples,
-			"scheduler_steps":       steps,
-			"scheduling_decisions_with_choice": picks,
-			"non_default_decisions": nondflt,
-			"workload_operations":   ops,
-			"simulated_seconds":     float64(simMs) / 1000,
-			"runs_per_hour":         perHour,
+			"evaluations":                          len(results),
+			"distinct_nontrivial":                  len(distinct),
+			"rule":                                 rule,
+			"samples":                              samples,
+			"scheduler_steps":                      steps,
+			"scheduling_decisions_with_choice":     picks,
+			"non_default_decisions":                nondflt,
+			"workload_operations":                  ops,
+			"simulated_seconds":                    float64(simMs) / 1000,
+			"runs_per_hour":                        perHour,
 			"distinct_interleavings_by_trace_hash": len(interleavings),
 			"distinct_abstract_states":             len(states),
-			"faults_fired":          faults,
-			"reach_probes":          probes,
-			"variants":              variants,
-			"strategies":            strategies,
-			"leaked_goroutine_runs": leaked,
-			"inconclusive_runs_budget_exhausted": inconcl,
-			"adopted_goroutines":    adopted,
-			"real_code":             info.Real,
-			"models_and_stubs":      info.Model,
-			"known_findings_hit":    kn,
-			"repo_tree_hash":        b.treeHash,
-			"instrumentation":       b.instrStats,
+			"faults_fired":                         faults,
+			"reach_probes":                         probes,
+			"variants":                             variants,
+			"strategies":                           strategies,
+			"leaked_goroutine_runs":                leaked,
+			"inconclusive_runs_budget_exhausted":   inconcl,
+			"adopted_goroutines":                   adopted,
+			"real_code":                            info.Real,
+			"models_and_stubs":                     info.Model,
+			"known_findings_hit":                   kn,
+			"repo_tree_hash":                       b.treeHash,
+			"instrumentation":                      b.instrStats,
 		},
 		"assumptions": append([]string{
 			"sampling, not enumeration: a clean batch is evidence, not proof",
